@@ -138,7 +138,7 @@ def wrappers(ctx):
         sel = calls(fo, 'cooler.core._selectors.RangeSelector1D')
         want_n = spec(ctx.repo, f'self._info["{n_attr}"]', {'self': V('self')})
         ok = bool(sel) and len(sel[-1].args) == 4 and sel[-1].args[0] == T.NONE and sel[-1].args[3] == want_n \
-            and sel[-1].args[1] == ('fn', f'cooler.api.Cooler.{name}.<locals>._slice')
+            and sel[-1].args[1] == ('fn', ctx.repo.func(f'cooler.api.Cooler.{name}.<locals>._slice').qualname)
         ctx.check(ok, R, f'{name}.selector', ctx.where(fo, sel[-1] if sel else None), found=sel[-1].term if sel else None,
                   expected=f'RangeSelector1D(None, _slice, <fetcher>, self._info["{n_attr}"])',
                   reason='negative and open-ended row keys are resolved against the length of this table')
